@@ -152,8 +152,9 @@ CLAIMED['C18'] = {
     'technique': 'exact integer TLA+ model of the overlay clock; TLC enumerates all operation sequences to a depth bound (and simulates to length 50); every edge replayed on the real OverlayClock; random sequences against the same exact model',
     'text': ('Overlay.tla is the clock as an affine map in integer microseconds; Continuous, ExactStep, Rate, ReturnsNow are action properties of it. Every edge of the bounded graph '
              '(sequences of set_frequency in {+-500, +-100, 0} ppm, step_clock in {+-10 s, +-1 ms, 0}, advances {0, 1, 100, 700} s) is executed on a real OverlayClock over a mock '
-             'underlying clock at three start points; reading, returned time and time_from_underlying are compared with the exact value after every operation.'),
-    'note': 'tolerance 2 ns + 2^-30 of the elapsed time (resolution of the implementation\'s fixed-point factor); the step_clock defect found is repaired by fix: 55c0e78',
+             'underlying clock at three start points, three ways: on a clock that stands still during a call, on a clock that moves 1 us at every read, and with every frequency '
+             'command p refined into (p - 0.0004 ppm, p); reading, returned time and time_from_underlying are compared with the exact value after every operation.'),
+    'note': 'tolerance 2 ns + 2^-40 of the elapsed time (resolution of the implementation\'s fixed-point factor); the step_clock defect found is repaired by fix: 55c0e78',
 }
 
 CLAIMED['C19'] = {
@@ -168,7 +169,7 @@ CLAIMED['C19'] = {
 CLAIMED['C20'] = {
     'engine': 'exporter-rig', 'level': 'fault_enumeration', 'design_ref': 'DESIGN.md section 4, C20',
     'technique': 'TLA+ state machine of the accept loop (Exporter.tla) model-checked for NeverWedged / BackToAccepting; TLC enumerates all sequences of client x observation-socket behaviours to a length bound, each executed against the real exporter process followed by a probe request',
-    'text': ('Exporter.tla has the accept loop as Accepting / Reading / Handling / Responding with the seven client behaviours and five observation-socket behaviours of the property; '
+    'text': ('Exporter.tla has the accept loop as Accepting / Reading / Handling / Responding with the eleven client behaviours (incl. a well-formed GET cut after 1, 2, 3, 9 octets and inside the header terminator) and five observation-socket behaviours of the property; '
              'TLC checks that the required behaviour is never wedged and always returns to accepting, shows that the loop as originally found is wedged (negative control), and enumerates '
              'every sequence up to length 2 (quick) / 3 (thorough) plus sampled sequences of length 3-4 with the expected observation per connection. Each sequence runs against a fresh '
              'real exporter process; afterwards a well-formed request must be answered 200 within 2 s, with the process alive and not burning CPU.'),
@@ -179,7 +180,7 @@ CLAIMED['C13'] = {
     'engine': 'servo-traces', 'level': 'exploration', 'design_ref': 'DESIGN.md section 4, C13',
     'technique': 'trace validation: every clock command of the real KalmanFilter / BasicFilter under adversarial measurement sequences is an event of an ndjson trace that TLC checks against Servo.tla (life cycle + command guards)',
     'text': ('Servo.tla states the life cycle (Idle, Controlling, Demobilized: at most one final frequency command) and the guards (finite; |frequency| <= max_freq_offset; '
-             '|step| >= step_threshold). A driver feeds eight families of adversarial measurement sequences and a range of configurations into the real filters with an exact mock '
+             '|step| >= step_threshold). A driver feeds nine families of adversarial measurement sequences and a range of configurations into the real filters with an exact mock '
              'clock that can fail; TLC validates each recorded trace (about 170 000 events quick) and must reject a trace with one out-of-bound command (negative control).'),
     'note': 'sampled sequences, exhaustive over nothing; two NaN defects found this way are repaired by fix: commits; the port-level demobilise rule is checked by C08',
 }
